@@ -135,6 +135,8 @@ func main() {
 		os.Exit(cmdReplay(os.Args[2:]))
 	case "list":
 		os.Exit(cmdList(os.Args[2:]))
+	case "ssa":
+		os.Exit(cmdSSA(os.Args[2:]))
 	default:
 		usage()
 	}
@@ -202,4 +204,25 @@ func uniq(s []string) []string {
 		}
 	}
 	return o
+}
+
+// cmdSSA prints the SSA of the functions whose key contains the argument (development aid).
+func cmdSSA(args []string) int {
+	e, err := load("/repo")
+	if err != nil {
+		fmt.Println(err)
+		return 2
+	}
+	var keys []string
+	for k := range e.fns {
+		if len(args) > 0 && strings.Contains(k, args[0]) {
+			keys = append(keys, k)
+		}
+	}
+	sort.Strings(keys)
+	for _, k := range keys {
+		fmt.Println("=====", k)
+		e.fns[k].WriteTo(os.Stdout)
+	}
+	return 0
 }
